@@ -29,12 +29,14 @@ SPEC = dict(
     level="exploration",
     level_text="Differential runtime monitor under ASan+UBSan: every input string is judged both by nng (nng_url_parse and all accessors, nng_url_sprintf, nng_url_clone, nng_url_resolve_port, nng_url_free) and by an independent strict reference in the harness (exact scheme table + '://', authority/port rules, percent-escape validity, Unicode table 3-7 UTF-8 validator, RFC 3986 canonicaliser); input and output buffers are exact-size heap blocks. Exhaustive over the enumerated spaces (all percent-encoded and raw byte pairs; every E0-EF lead x every second byte x every third byte percent-encoded, boundary third bytes raw; F0-FF leads x every second byte x boundary third/fourth bytes; each with four followers: end, ASCII, another sequence, query start; every prefix/extension/case variant of every scheme; remainder lengths 100-400 in 16 shapes across the 128-byte inline buffer; a host x port matrix), sampled beyond that by a seeded grammar-based generator with byte mutations and by coverage-guided libFuzzer runs (clang fuzzer-no-link build) feeding the same judge. Held-on-what-was-run, not a proof.",
     level_note="Trusts the reference predicate/canonicaliser in harness/c19_url.c (about 350 lines), whose scheme and default-port tables are copied from url.c, libc getservbyname for service-name ports, and gcc/clang ASan+UBSan. Deliberately not demanded because the statement is silent: host/userinfo character sets beyond the judged rules named below (invalid %XX in user info or a registered name IS judged; a bracketed literal may carry a raw % zone id), UTF-8 validity of query/fragment, hex case of kept escapes, whether %80-%FF are decoded, trailing slash after a final dot segment, order of slash collapsing vs dot removal, and any validation of the host-less schemes (ipc, unix, abstract, inproc, socket), which nng documents as opaque strings. Over-rejection is counted (stats overstrict*), not flagged, because the property is 'accepts only if'. Also judged: every string of a parsed/cloned/endpoint-held URL is a terminated string inside the storage the URL records (white-box), and the embedded forms (nng_dialer/listener_create[_url] + get_url, started listeners with port 0 on both sides of the inline buffer) report the URL nng_url_parse gave. 'Well-formed authority' is judged where every host grammar in use (RFC 3986, RFC 1123, WHATWG) agrees: a blank or control byte (<= 0x20, 0x7f) in the user info or host is strict/authority-blank-or-control, a bracketed host that is neither an IPv6 address (inet_pton) with an optional non-empty zone nor an IPvFuture literal is strict/authority-bracket-not-an-address, and an unreserved escape left in a registered name is canon/unreserved-escape-kept/host (the statement lists 'unreserved escapes decoded' for the components; a bracketed literal is exempt because its raw % introduces the zone). The remaining classes (sub-delims/escapes, stray brackets, raw bytes >= 0x80 or RFC-excluded ASCII in a registered name, odd user info or zone characters, IPvFuture) stay open; they are counted (open_* in the sampled modes) and in mode enum pinned exactly as a differential baseline (base_*_accepted / base_*_rejected floors on a deterministic population of every byte value at every place of the authority), so that drift of the accepted set is inconclusive rather than unseen. Inputs far above the reference's fixed arrays (4 KiB .. 1 MiB, ten shapes) carry their expected result by construction (length_huge*). UTF-8 sequences are enumerated at six places of the path (utf8_pos_*). Unexplained over-rejection makes the run inconclusive (harness failure + exact floors on utf8_enum_valid_*_accepted), never a violation. The libFuzzer runs are seeded from the committed corpus /verif/corpus/C19 (read only; found by long runs + -merge; regenerate with c19_fuzz --mode grow:<dir> / merge:<dst>,<src>). Clone classes whose fork-isolated canary crashes are reported once and skipped in-process (stat clones_skipped_quarantined) so that a crashing clone path does not cost the rest of the evidence.",
-    technique="differential reference-model monitor + exhaustive boundary enumeration + grammar-based generation + libFuzzer + ASan/UBSan",
+    technique="differential reference-model monitor + exhaustive boundary enumeration + grammar-based generation + libFuzzer + ASan/UBSan; valgrind memcheck (definedness of every value that steers a branch, an address or a system call) on a sample of the same workload",
     rule="a case is one input string: reference verdict and components are computed, nng parses it, and for every accepted URL the accessors are compared with the reference, canonical-form predicates are evaluated on nng's output, the URL is formatted (size query, exact-size buffer, truncating buffer), re-parsed and compared in scheme/host/port/path/query/fragment, then cloned, compared (including that every string lies in the clone's own storage), mutated through nng_url_resolve_port on one side and used after the other side was freed; a class is (workload, accept/reject, reference verdict or UTF-8 error kind, storage inline/heap, userinfo, host kind, port kind, path feature bits, query, fragment) and is recorded only when that case was executed and judged",
     assumptions=["scheme and default-port tables in the harness mirror url.c", "C locale (tolower/isxdigit are ASCII-only)", "/etc/services is the one the library sees"],
     quick=dict(runs=[R("c19_url", "asan", 8, 0, "enum", 600),
                      R("c19_url", "asan", 8, 250000, "gram", 600),
-                     R("c19_fuzz", "fuzz", 4, 300000, "", 600)],
+                     R("c19_fuzz", "fuzz", 4, 300000, "", 600),
+                     # valgrind memcheck lines: only memcheck reports are judged (see vf FLAVORS["vg"])
+                     R("c19_url", "vg", 4, 3000, "gram", 1800)],
                floor={"cases": 8000000, "accepted": 700000, "rejected": 4000000, "roundtrips": 700000,
                       "clones": 600000, "accepted_heap": 60000, "accepted_hostless": 60000,
                       "utf8_enum": 4000000, "scheme_variants": 5000, "length_sweep": 4000,
@@ -62,7 +64,9 @@ SPEC = dict(
                exhaustive_note="mode enum enumerates its spaces completely (independent of the seed); mode gram and the libFuzzer runs are sampled"),
     thorough=dict(runs=[R("c19_url", "asan", 16, 0, "enum", 3000),
                         R("c19_url", "asan", 16, 2000000, "gram", 3000),
-                        R("c19_fuzz", "fuzz", 16, 4000000, "", 3000)],
+                        R("c19_fuzz", "fuzz", 16, 4000000, "", 3000),
+                        # valgrind memcheck lines: only memcheck reports are judged (see vf FLAVORS["vg"])
+                        R("c19_url", "vg", 16, 12000, "gram", 1800)],
                   floor={"cases": 70000000, "accepted": 12000000, "rejected": 40000000, "roundtrips": 12000000,
                          "clones": 10000000, "accepted_heap": 2000000, "accepted_hostless": 1200000,
                          "utf8_enum": 9000000, "fuzz_execs": 50000000, "@classes": 15000,
